@@ -35,7 +35,7 @@ def harnesses(tier):
     for nt in ((1, 2) if tier == 'quick' else (1, 2, 5, 11)):
         H.append(BHarness('R2_tail_n%d' % nt, 'c13_rg.cpp', 'h_r_tail', defs=['JLO=1', 'JHI=1', 'NTAIL=%d' % nt, 'NREFILL=397'], post=post_exact, timeout=900, **ex,
             what='%d pass(es) of the tail loop == reference steps' % nt, bound='carry x jr enumerated, 12 words symbolic'))
-    for p in ((397, 13, 25) if tier == 'quick' else (397, 1, 11, 12, 13, 23, 24, 25, 36, 37)):
+    for p in ((397, 13, 25) if tier == 'quick' else (397, 11, 12, 13, 23, 24, 25, 36, 37)):
         for lo, hi in ([(0, 1), (2, 3), (4, 5), (6, 7), (8, 9), (10, 11)] if p > 100 else [(0, 5), (6, 11)]):
             H.append(BHarness('R1p_refill_p%d_j%d_%d' % (p, lo, hi), 'c13_rg.cpp', 'h_r_refill', defs=['JLO=%d' % lo, 'JHI=%d' % hi, 'NTAIL=1', 'NREFILL=%d' % p], timeout=900, maxsteps=3000000, **ex,
                 what='with luxury p=%d%s the real control flow of increment_state performs exactly the p reference steps on x[(j+t) mod 12], t=0..p-1 (head+blocks+tail tile without gap or overlap): final 12 words and carry equal the reference, final indices (j+p) mod 12' % (p, ' (shipped)' if p == 397 else ''),
